@@ -1,6 +1,6 @@
 (* PipelineProofs.v — theorems about kiki::generate as a whole. *)
 From Coq Require Import List Arith Lia Bool Permutation.
-From Kiki Require Import Base.Ord Base.Chars Data Oset.Model Lex.Model LR.Driver LR.Grammar LR.Inv LR.Complete LR.Sound LR.ErrPos LR.Viable
+From Kiki Require Import Base.Ord Base.Chars Data Oset.Model Lex.Model LR.Driver LR.Grammar LR.Inv LR.Complete LR.Sound LR.ErrPos LR.Viable LR.Least
   LR.Validate LR.ValidateProofs Front.Parse Front.FrontProofs Ast.Validate Ast.WF Ast.ValidateProofs Ast.VWF Ast.Truthful
   Build.Machine Build.DetProofs Build.Table Build.TableProofs Build.FillProofs Build.TableSpec Build.GenCorrect Np Build.NoPanic
   Emit.Emit Emit.Parser Emit.NoPanic Pipeline.
@@ -50,7 +50,8 @@ Theorem generate_tables_invariants ho digest src out text :
   perm_hash_order ho -> generate_full ho digest src = Ok (out, text) ->
   exists pt (ann : list (list Grammar.item)) (ft : first_table),
     ptable_of (go_file out) (go_table out) = Some pt /\
-    Inv pt ann (fseq ft) /\ Inv2 pt ann /\ (forall P (kind : P -> nat), FirstOK kind pt (fseq ft)) /\ Inv3 pt ann.
+    Inv pt ann (fseq ft) /\ Inv2 pt ann /\ (forall P (kind : P -> nat), FirstOK kind pt (fseq ft)) /\ Inv3 pt ann /\
+    Least pt ann (fseq ft).
 Proof.
   intros (Hpt & Hpa) H. unfold generate_full in H.
   destruct (front_end src) as [v|e|s|s] eqn:Ev; cbn [bind] in H; try discriminate.
@@ -61,8 +62,8 @@ Proof.
   destruct (table_to_rust _ _ _ t v digest) as [tx|e|s|s]; cbn [bind] in H; try discriminate.
   injection H as <- <-. cbn [go_file go_table].
   destruct (ptable_of_total v t HV) as (pt & HP). exists pt.
-  destruct (generated_tables_invariants _ _ _ v m t pt HV Hpt Hpa Em Et HP) as (ann & ft & A & B & C & D).
-  exists ann, ft. auto.
+  destruct (generated_tables_invariants _ _ _ v m t pt HV Hpt Hpa Em Et HP) as (ann & ft & A & B & C & D & E).
+  exists ann, ft. repeat (split; [assumption|]). assumption.
 Qed.
 
 Section Emitted.
@@ -74,7 +75,7 @@ Section Emitted.
 
   Lemma emitted_invariants : exists ann ft, Inv pt ann (fseq ft) /\ Inv2 pt ann /\ FirstOK kind pt (fseq ft) /\ Inv3 pt ann.
   Proof.
-    destruct (generate_tables_invariants ho digest src out text Hho Hgen) as (pt' & ann & ft & HP & A & B & C & D).
+    destruct (generate_tables_invariants ho digest src out text Hho Hgen) as (pt' & ann & ft & HP & A & B & C & D & _).
     rewrite Hpt in HP. injection HP as <-. exists ann, ft. auto.
   Qed.
 
@@ -131,6 +132,19 @@ Section Emitted.
     rewrite E1 in E2. congruence.
   Qed.
 End Emitted.
+
+(* C17/C04: the lookahead sets are exactly the least solution of the LALR(1) propagation rules
+   over the automaton: an item is in the annotation of a state iff it is derivable from the
+   start item by the closure rule and by following transitions *)
+Theorem emitted_annotation_is_exact ho digest src out text :
+  perm_hash_order ho -> generate_full ho digest src = Ok (out, text) ->
+  exists pt (ann : list (list Grammar.item)) (ft : first_table),
+    ptable_of (go_file out) (go_table out) = Some pt /\
+    forall s it, In_state ann it s <-> lder pt (fseq ft) s it.
+Proof.
+  intros Hho H. destruct (generate_tables_invariants ho digest src out text Hho H) as (pt & ann & ft & HP & A & _ & _ & _ & E).
+  exists pt, ann, ft. split; [exact HP|]. apply exact_of_closed_and_least; assumption.
+Qed.
 
 (* ---------- C07: after the front end, nothing can panic ---------- *)
 
